@@ -692,6 +692,14 @@ fn run_system(sc: &ScenarioH, w: &WorldH) -> Result<RunOut, String> {
             .max()
             .unwrap_or(0);
         tokio::time::sleep(Duration::from_millis(2 * (timeout + max_delay) + 1_000)).await;
+        if sc.poisoned_resnapshot {
+            // every dropped account connection is followed by poison_len failing re-initialisations,
+            // each behind its backoff wait (125 ms doubling up to 60 s); connections dropped while the
+            // stream is still backing off are only found closed once it gets to them
+            let ladder: u64 = (0..sc.poison_len.max(1) as u32).map(|k| (125u64 << k.min(20)).min(60_000)).sum();
+            let drops: u64 = account_drops.iter().sum();
+            tokio::time::sleep(Duration::from_millis(drops * (ladder + 10))).await;
+        }
         if sc.jump.is_some() {
             tokio::time::sleep(Duration::from_millis(2 * (timeout + max_delay) + 1_000)).await;
         }
